@@ -61,7 +61,13 @@ func main() {
 	}
 	bceFile = *bce
 	t0 := time.Now()
-	w, err := Load(*repo)
+	var w *World
+	var err error
+	if *listFuncs || *listFields {
+		w, err = load(*repo, false) // the inventory is of the program as written: nothing inlined
+	} else {
+		w, err = Load(*repo)
+	}
 	if err != nil {
 		ids := []string{*prop}
 		if *prop == "all" || *prop == "" {
